@@ -4,7 +4,7 @@ from engine import run_sim_check
 import drivercases as dc
 from asyncchecks import *
 
-THEOREMS = ["want_send_on_unlisted_is_noop", "unregister_tolerates_absent", "remove_tolerates_absent", "pfds_aligned_invariant", "promises_resolved_at_most_once_guard"]
+THEOREMS = ["want_send_on_unlisted_is_noop", "unregister_tolerates_absent", "remove_tolerates_absent", "pfds_aligned_invariant", "promises_resolved_at_most_once_guard", "destroy_breaks_every_pending_send"]
 
 
 # bounded-exhaustive part: EVERY sequence of up to L operations over this alphabet, on one driver with one asynchronous TCP socket
